@@ -54,6 +54,18 @@ func (c *chunkReader) Read(p []byte) (int, error) {
 	return k, nil
 }
 
+// rewindChunkReader: a chunkReader that can be rewound to the start (Seek(0, io.SeekStart) only), replaying the same plan.
+type rewindChunkReader struct {
+	chunkReader
+	all   []byte
+	plan0 []int
+}
+
+func (c *rewindChunkReader) Seek(off int64, whence int) (int64, error) {
+	c.data, c.plan, c.delivered = append([]byte(nil), c.all...), append([]int(nil), c.plan0...), 0
+	return 0, nil
+}
+
 func coqNats(xs []int) string {
 	items := make([]string, len(xs))
 	for i, x := range xs {
@@ -388,6 +400,48 @@ func c08(args []string) {
 				}
 			}
 		}
+		// the documented recovery flow -- CheckIntegrity, rewind the reader, Decode -- gives the same sequences whatever the reads
+		// looked like during the integrity check (nothing of the checked stream may stay behind in the read buffer)
+		{
+			flow := func(rd io.ReadSeeker, size int) (string, int, int, any) {
+				var p any
+				var log string
+				var ec, seq int
+				func() {
+					defer func() { p = recover() }()
+					dec := decoder.New(rd, decoder.WithReadBufferSize(size))
+					seq, _ = dec.CheckIntegrity()
+					rd.Seek(0, io.SeekStart)
+					var sb strings.Builder
+					var derr error
+					for dec.Next() {
+						fit, err := dec.Decode()
+						if err != nil {
+							derr = err
+							break
+						}
+						sb.WriteString("F" + coqFit(fit) + "\n")
+					}
+					log, ec = sb.String(), errClass(derr)
+				}()
+				return log, seq, ec, p
+			}
+			l1, s1, e1, p1 := flow(bytes.NewReader(b), 4096)
+			plan2 := r.chunkPlan(len(b))
+			if r.chance(1, 3) {
+				plan2 = []int{r.pick(13, 27, 40, 1<<20)}
+				for len(plan2) < 64 {
+					plan2 = append(plan2, plan2[0])
+				}
+			}
+			l2, s2, e2, p2 := flow(&rewindChunkReader{chunkReader: chunkReader{data: append([]byte(nil), b...), plan: append([]int(nil), plan2...), eofWithData: eofWD, failAt: -1}, all: b, plan0: plan2}, size)
+			stat("oracle_integrity_then_rewind_then_decode", 1)
+			truncated := func(e int) bool { return e == 1 || e == 2 }
+			if p1 != nil || p2 != nil || l1 != l2 || s1 != s2 || (e1 != e2 && !(truncated(e1) && truncated(e2))) {
+				emitJSON("FAIL", "", map[string]any{"kind": "integrity-check-then-rewind-then-decode depends on the fragmentation", "bytes": fmt.Sprintf("%x", b), "bufsize": size,
+					"eof_with_data": eofWD, "plan": plan2[:minInt(len(plan2), 8)], "contiguous": fmt.Sprint(s1, e1), "chunked": fmt.Sprint(s2, e2), "same_decoded": l1 == l2, "panic": fmt.Sprint(p1, p2)})
+			}
+		}
 		// a reused decoder (Reset with another read-buffer size) decodes like a fresh one of that size
 		{
 			a := r.pick(0, 1, 766, 1024, 4096, 5000)
@@ -436,12 +490,19 @@ func rawEvents(rd io.Reader) (log string, n int64, errc int, bounds []int) {
 // events and error class of the second use.
 func reusedDecode(b []byte, first, second int, checksum bool) (log string, errc int, panicked any) {
 	defer func() { panicked = recover() }()
-	dec := decoder.New(bytes.NewReader(b), decoder.WithReadBufferSize(first))
+	old := &eventLog{} // listeners of the first use: Reset without them must not deliver anything to them any more
+	dec := decoder.New(bytes.NewReader(b), decoder.WithReadBufferSize(first), decoder.WithMesgListener(old), decoder.WithMesgDefListener(old))
 	for dec.Next() {
 		if _, err := dec.Decode(); err != nil {
 			break
 		}
 	}
+	oldSeen := len(old.lines)
+	defer func() {
+		if panicked == nil && len(old.lines) != oldSeen {
+			log, errc = log+"\nLISTENER OF THE FIRST USE RECEIVED EVENTS AFTER RESET", 101
+		}
+	}()
 	ev := &eventLog{}
 	opts := []decoder.Option{decoder.WithMesgListener(ev), decoder.WithMesgDefListener(ev), decoder.WithReadBufferSize(second)}
 	if !checksum {
